@@ -31,8 +31,8 @@ struct RunResult {
 
 static PANIC_MSG: Mutex<Option<String>> = Mutex::new(None);
 
-fn run_one(profile: &str, scenario_seed: u64, verbose: bool) -> RunResult {
-    let (params, extras) = profiles::make(profile, scenario_seed);
+fn run_one(profile: &str, scenario_seed: u64, index: u64, verbose: bool) -> RunResult {
+    let (params, extras) = profiles::make(profile, scenario_seed, index);
     let params = Arc::new(params);
     let w = world::World::new(params.clone(), verbose);
     let net = app::make_net(&w, &params, None);
@@ -165,7 +165,7 @@ fn main() {
                 }
                 let sseed = mix(mix(seed, vq_util::hash_str(&profile)), i);
                 let t1 = std::time::Instant::now();
-                let r = run_one(&profile, sseed, false);
+                let r = run_one(&profile, sseed, i, false);
                 let ms = t1.elapsed().as_millis() as i64;
                 let mut s = r.summary;
                 s.max("max_wall_ms_per_scenario", ms);
@@ -185,6 +185,7 @@ fn main() {
                     .drain(..)
                     .map(|mut v| {
                         v.replay["scenario_seed"] = json!(sseed);
+                        v.replay["index"] = json!(i);
                         v
                     })
                     .collect();
@@ -195,7 +196,8 @@ fn main() {
         }
         "replay" => {
             let sseed = arg_u64(&args, "scenario-seed", 0);
-            let r = run_one(&profile, sseed, verbose);
+            let index = arg_u64(&args, "index", 0);
+            let r = run_one(&profile, sseed, index, verbose);
             let mut s = r.summary;
             for v in s.violations.iter_mut() {
                 v.replay["scenario_seed"] = json!(sseed);
